@@ -5,7 +5,7 @@ From PGV Require Import Model.RuleText Model.Value Model.Clause Model.Rules Spec
 From PGV Require Import Proofs.SizeProofs Proofs.C01Final Run.Run_C01.
 From PGV Require Import Spec.RuleTextSpec Proofs.NumProofs Proofs.C01Builder.
 From PGV Require Import Base.MiniGo Extracted.SourceFnsSize Model.GoSize Proofs.GoSizeProofs.
-From PGV Require Import Extracted.SourceFnsRule Model.GoRule Proofs.GoRuleProofs.
+From PGV Require Import Extracted.SourceFnsRule Model.GoRule Proofs.GoRuleProofs Proofs.GoHelperProofs.
 Open Scope Z_scope.
 
 (* to / oto: for EVERY rule text whose value the code parses to integer bounds lo~hi (negative,
@@ -119,6 +119,19 @@ Theorem C01_rule_verdict_from_source : forall (orc : oracles) (U : val -> str) (
   (run_rule orc U FE ST fn_NoEq vn obj field v = Some [] <-> rNoEq vn obj field v = []).
 Proof. exact size_rules_write_iff_clause. Qed.
 Print Assumptions C01_rule_verdict_from_source.
+
+(* the bound reader of to / oto: parseTagTo (valid/common.go), from its syntax tree regenerated on every run, computes the
+   model's parse_tag_to on EVERY text — two parts around one '~', each read by strconv.Atoi (hand model atoi), the
+   rule-writing error otherwise; and ReflectKindIsNum is the integer-kind test (with floats when asked) on every kind *)
+Theorem C01_bound_reader_from_source : forall (s : str) (he : bool),
+  run_parse_to fn_parseTagTo s he = Some (parse_tag_to s (if he then s2b "to" else s2b "oto")).
+Proof. exact parse_tag_to_from_source. Qed.
+Print Assumptions C01_bound_reader_from_source.
+Theorem C01_kind_test_from_source : forall (k : String.string) (flags : list bool),
+  run_kind_is_num fn_ReflectKindIsNum k flags =
+  Some (kind_name_is_int k || (kind_name_is_float k && match flags with [] => false | b :: _ => b end)).
+Proof. exact kind_is_num_from_source. Qed.
+Print Assumptions C01_kind_test_from_source.
 
 (* THROUGH THE RULE TEXT, unbounded: strconv.Itoa then strconv.Atoi is the identity on every int64,
    and for every pair of int64 bounds the text  key=lo~hi[|msg]  (resp. key=b[|msg]) written by the
